@@ -228,6 +228,34 @@ def main(tier, seed):
                                      dict(document=what, gir=cur if len(cur) < 200000 else '<shipped file>'), detail=first_diff(cur, nxt))
                     break
                 cur = nxt
+        # the hand-written GIR files of gir/: their layout is not the writer's, so the first write normalises it; what the
+        # namespace element says must survive, and the file the writer produced must then cycle to itself
+        for f in sorted(glob.glob(os.path.join(REPO, 'gir', '*.gir'))):
+            what = 'shipped gir/' + os.path.basename(f)
+            src = open(f, encoding='utf-8').read()
+            ck.count_case(dict(document=what, bytes=len(src)), nontrivial=True, kind='shipped-gir')
+            try:
+                w1 = passthrough(f)
+                p1 = os.path.join(tmp, 'w1.gir')
+                open(p1, 'w', encoding='utf-8').write(w1)
+                w2 = passthrough(p1)
+            except BaseException as e:      # noqa
+                ck.failing_input('the GIR reader or writer raises %s on %s' % (type(e).__name__, what), dict(document=what), detail=repr(e))
+                continue
+            a, b_ = ET.fromstring(src).find(S.CORE + 'namespace'), ET.fromstring(w1).find(S.CORE + 'namespace')
+            for attr in ('name', 'version', 'shared-library', S.CNS + 'identifier-prefixes', S.CNS + 'symbol-prefixes'):
+                if a.get(attr) is not None and a.get(attr) != (b_.get(attr) or ''):      # (DBus*-1.0.gir use the old c:prefix and state none)
+                    ck.failing_input('reading a shipped GIR and writing it back changes the %s of the namespace'
+                                     % attr.replace(S.CNS, 'c:'), dict(document=what, namespace_element={k.replace(S.CNS, 'c:'): v for k, v in a.attrib.items()}),
+                                     detail=dict(read_back=b_.get(attr)))
+            ka = sorted((e.tag, e.get('name') or e.get(S.GLIB + 'name') or '') for e in a)
+            kb = sorted((e.tag, e.get('name') or e.get(S.GLIB + 'name') or '') for e in b_)
+            if ka != kb:
+                ck.failing_input('reading a shipped GIR and writing it back loses or adds definitions', dict(document=what),
+                                 detail=dict(lost=[x for x in ka if x not in kb][:5], added=[x for x in kb if x not in ka][:5]))
+            if w2 != w1:
+                ck.failing_input('reading a GIR and writing it back does not give identical XML (itself produced by a write)',
+                                 dict(document=what), detail=first_diff(w1, w2))
     finally:
         shutil.rmtree(tmp, ignore_errors=True)
     return ck.finish(rule='GIR documents written by the real scanner for the generators of annotated callables, runtime-dump worlds, '
